@@ -571,7 +571,7 @@ func init() {
 	register(&PropSpec{
 		ID:    "C12",
 		Level: "other",
-		Decided: "(a) every kind the documentation calls empty-able has an arm in the omitempty resolver and size kinds are decided by Len()>0, IsZeroer is the default fall-back; (b) no folder that was looked up or built is discarded (the user-folder lookup for inlined fields is live); (c) member names: tag name verbatim, else lower-cased field name - on the fold and on the unfold side; (d) dispatch order user folders -> built-in fast paths -> Folder interface -> named-type conversion -> reflection; inline expansion strips exactly one object level and forwards nothing outside it (R6 on ExpectObjVisitor). (e) OMIT-FIRST: nothing is built or registered for a field before its omit option was found false, on the fold and on the unfold side; (f) ExpectObjVisitor is re-armed with a reset depth (R6 REARM); (g) an inlined field is compiled and looked up under the inline registry key (R10 GETTER). A fast path that reinterprets map memory is selected by type identity, so that it cannot bypass the folder of a named element type (R16 TYPE-GATE).",
+		Decided: "(a) every kind the documentation calls empty-able has an arm in the omitempty resolver and size kinds are decided by Len()>0, IsZeroer is the default fall-back; (b) no folder that was looked up or built is discarded (the user-folder lookup for inlined fields is live); (c) member names: tag name verbatim, else lower-cased field name - on the fold and on the unfold side; (d) dispatch order user folders -> built-in fast paths -> Folder interface -> named-type conversion -> reflection; inline expansion strips exactly one object level and forwards nothing outside it (R6 on ExpectObjVisitor). (e) OMIT-FIRST: nothing is built or registered for a field before its omit option was found false, on the fold and on the unfold side; (f) ExpectObjVisitor is re-armed with a reset depth (R6 REARM); (g) an inlined field is compiled and looked up under the inline registry key (R10 GETTER). A fast path that reinterprets map memory is selected by type identity, so that it cannot bypass the folder of a named element type (R16 TYPE-GATE). (h) TAG-SKIP-NAME: the skip marker '-' is compared with the name part of the tag, not with the whole tag; (i) KEY-DETERMINES: what a registry stores under a loop-carried key (the pointer-free base type) is not built from another value of the same loop (the pointer depth).",
 		NotDecided: "which fields are emitted for which value (needs an executable model of the tag rules compared on generated types - a different family); pointer depth handling of omitempty; number exactness.",
 		Assumptions: []string{"the documented rules (tags.go comment, README) are the oracle; anchors: makeResolveNonEmptyValue, buildFieldFold, fieldUnfolders, foldInterfaceValue"},
 		TrustedBase: baseTrusted,
